@@ -882,6 +882,7 @@ class Inliner:
         self.desugar_globals_dict()
         self.lower_conditional_arguments()
         self.split_on_conditional_tuple()
+        self.lower_table_lookups()
         self.split_tuple_assigns()
         ast.fix_missing_locations(self.tree)
         return self.tree
@@ -1038,6 +1039,140 @@ class Inliner:
                     for n_ in (new, a, b, a.value, b.value):
                         ast.copy_location(n_, st)
                     blk[i] = new
+
+    def lower_table_lookups(self):
+        """``v = T.get(K[, D])`` / guarded ``v = T[K]`` with T a module-
+        level dict literal of constants that nothing writes (at most 24 rows)
+        and K a plain name becomes the if-chain it abbreviates, rows with
+        the same value grouped: ``if K in (k1, k2): v = V1 elif ..: v = V2
+        else: v = D``.  An ``if`` that directly follows and tests ``v`` is
+        copied into every arm with ``v`` replaced by the row's value (tests
+        on constants folded)."""
+        tables = {}
+        for st in self.tree.body:
+            if isinstance(st, ast.Assign) and len(st.targets) == 1 and \
+                    isinstance(st.targets[0], ast.Name) and isinstance(
+                        st.value, ast.Dict) and st.value.keys and len(
+                            st.value.keys) <= 24 and all(
+                                isinstance(k, ast.Constant)
+                                for k in st.value.keys) and all(
+                                    isinstance(v, ast.Constant)
+                                    for v in st.value.values):
+                tables[st.targets[0].id] = st.value
+        if not tables:
+            return
+        MUT = ('append', 'extend', 'add', 'update', 'clear', 'pop', 'remove',
+               'discard', 'insert', 'setdefault', 'popitem', 'sort')
+        for x in ast.walk(self.tree):
+            tg = []
+            if isinstance(x, (ast.Assign, ast.Delete)):
+                tg = x.targets
+            elif isinstance(x, ast.AugAssign):
+                tg = [x.target]
+            for t in tg:
+                if isinstance(t, ast.Subscript) and isinstance(
+                        t.value, ast.Name):
+                    tables.pop(t.value.id, None)
+            if isinstance(x, ast.Call) and isinstance(
+                    x.func, ast.Attribute) and x.func.attr in MUT and \
+                    isinstance(x.func.value, ast.Name):
+                tables.pop(x.func.value.id, None)
+            if isinstance(x, ast.FunctionDef):
+                for g in ast.walk(x):
+                    if isinstance(g, ast.Global):
+                        for n_ in g.names:
+                            tables.pop(n_, None)
+        if not tables:
+            return
+
+        def chain(var, key, tab, default, follow, at):
+            groups = []
+            for k, v in zip(tab.keys, tab.values):
+                for g in groups:
+                    if ast.dump(g[0]) == ast.dump(v):
+                        g[1].append(k)
+                        break
+                else:
+                    groups.append((v, [k]))
+            arms = []
+            for v, ks in groups + [(default, None)]:
+                body = [ast.Assign(targets=[ast.Name(id=var,
+                                                     ctx=ast.Store())],
+                                   value=clone(v))]
+                if follow is not None:
+                    f2 = _Subst({var: v}).visit(clone(follow))
+                    f2 = _FoldTests().visit(f2)
+                    if isinstance(f2, list):
+                        body += f2
+                    elif f2 is not None:
+                        body.append(f2)
+                arms.append((ks, body))
+            node = None
+            for ks, body in reversed(arms):
+                if ks is None:
+                    node = body
+                    continue
+                test = ast.Compare(
+                    left=clone(key), ops=[ast.In()],
+                    comparators=[ast.Tuple(elts=[clone(k) for k in ks],
+                                           ctx=ast.Load())])
+                node = [ast.If(test=test, body=body, orelse=node or [])]
+            for y in node:
+                for z in ast.walk(y):
+                    ast.copy_location(z, at)
+            return _drop_dead(node)
+
+        for f in [x for x in ast.walk(self.tree)
+                  if isinstance(x, ast.FunctionDef)]:
+            nb = {}
+            for x in ast.walk(f):
+                if isinstance(x, ast.Name) and isinstance(x.ctx, ast.Store):
+                    nb[x.id] = nb.get(x.id, 0) + 1
+            for x in ast.walk(f):
+                for fld in ('body', 'orelse', 'finalbody'):
+                    blk = getattr(x, fld, None)
+                    if not (isinstance(blk, list) and blk and isinstance(
+                            blk[0], ast.stmt)):
+                        continue
+                    i = 0
+                    while i < len(blk):
+                        st = blk[i]
+                        i += 1
+                        if not (isinstance(st, ast.Assign) and len(
+                                st.targets) == 1 and isinstance(
+                                    st.targets[0], ast.Name) and isinstance(
+                                        st.value, ast.Call) and isinstance(
+                                            st.value.func, ast.Attribute)
+                                and st.value.func.attr == 'get'
+                                and isinstance(st.value.func.value, ast.Name)
+                                and st.value.func.value.id in tables
+                                and 1 <= len(st.value.args) <= 2
+                                and not st.value.keywords
+                                and isinstance(st.value.args[0], ast.Name)):
+                            continue
+                        var = st.targets[0].id
+                        if nb.get(var, 0) != 1:
+                            continue
+                        dflt = st.value.args[1] if len(
+                            st.value.args) == 2 else ast.Constant(value=None)
+                        if not isinstance(dflt, ast.Constant):
+                            continue
+                        follow = None
+                        if i < len(blk) and isinstance(
+                                blk[i], ast.If) and any(
+                                    isinstance(y, ast.Name) and y.id == var
+                                    for y in ast.walk(blk[i].test)):
+                            follow = blk[i]
+                        new = chain(var, st.value.args[0],
+                                    tables[st.value.func.value.id], dflt,
+                                    follow, st)
+                        j = i - 1
+                        blk[j:j + (2 if follow is not None else 1)] = new
+                        i = j + len(new)
+                        self.notes.append(
+                            f'{f.name}: lookup in constant table '
+                            f'{st.value.func.value.id} written as an '
+                            'if-chain')
 
     def split_on_conditional_tuple(self):
         """``a, b = (A1, B1) if C else (A2, B2)`` followed by at most six
@@ -1437,6 +1572,10 @@ class Inliner:
                                     and x.id == st.name)
                                 or (isinstance(x, ast.Attribute)
                                     and x.attr == st.name))
+                    # a single-underscore method may be called by a
+                    # subclass in another module: keep the definition
+                    if qual and not st.name.startswith('__'):
+                        continue
                     if refs(st.name, None) - inner == 0:
                         body.remove(st)
                 elif isinstance(st, ast.ClassDef):
@@ -2501,10 +2640,163 @@ def lower_modern_syntax(tree):
     return notes
 
 
-def inline_new_helpers(tree, modname):
+PINNED_RECORDS = {'RunInfo', 'Simplification', 'Task', 'Result'}
+
+
+def new_records(sources):
+    """Record types (collections.namedtuple / typing.NamedTuple without
+    methods) that did not exist on the pinned tree, over the whole package:
+    {type name: [fields]} - only those whose field names are used for
+    nothing else in the package (no ``x.f = ..`` store, no method / class
+    attribute / module-level function of that name, no other record with the
+    field), so that ``.f`` can only be a read of that field."""
+    recs = {}
+    other_attrs = set()
+    trees = []
+    for src in sources:
+        try:
+            t = ast.parse(src)
+        except SyntaxError:
+            continue
+        trees.append(t)
+    for t in trees:
+        for st in t.body:
+            if isinstance(st, ast.ClassDef) and len(st.bases) == 1 and \
+                    ast.unparse(st.bases[0]) in ('typing.NamedTuple',
+                                                 'NamedTuple'):
+                fs = [b.target.id for b in st.body
+                      if isinstance(b, ast.AnnAssign)
+                      and isinstance(b.target, ast.Name)]
+                meth = any(isinstance(b, ast.FunctionDef) for b in st.body)
+                dfl = any(isinstance(b, ast.AnnAssign) and b.value is not None
+                          for b in st.body)
+                if fs and not meth and not dfl and \
+                        st.name not in PINNED_RECORDS:
+                    recs[st.name] = fs
+            elif isinstance(st, ast.Assign) and len(
+                    st.targets) == 1 and isinstance(
+                        st.targets[0], ast.Name) and isinstance(
+                            st.value, ast.Call) and ast.unparse(
+                                st.value.func) in ('collections.namedtuple',
+                                                   'namedtuple') and len(
+                                                       st.value.args) == 2 \
+                    and not st.value.keywords:
+                a1 = st.value.args[1]
+                fs = None
+                if isinstance(a1, (ast.List, ast.Tuple)) and all(
+                        isinstance(e, ast.Constant) for e in a1.elts):
+                    fs = [e.value for e in a1.elts]
+                elif isinstance(a1, ast.Constant) and isinstance(
+                        a1.value, str):
+                    fs = a1.value.replace(',', ' ').split()
+                if fs and st.targets[0].id not in PINNED_RECORDS:
+                    recs[st.targets[0].id] = fs
+    if not recs:
+        return {}
+    for t in trees:
+        for x in ast.walk(t):
+            if isinstance(x, ast.Attribute) and isinstance(
+                    x.ctx, (ast.Store, ast.Del)):
+                other_attrs.add(x.attr)
+            elif isinstance(x, ast.FunctionDef):
+                other_attrs.add(x.name)
+            elif isinstance(x, ast.ClassDef):
+                if x.name in recs:
+                    continue
+                for b in x.body:
+                    if isinstance(b, ast.Assign):
+                        for tg in b.targets:
+                            if isinstance(tg, ast.Name):
+                                other_attrs.add(tg.id)
+                    elif isinstance(b, ast.AnnAssign) and isinstance(
+                            b.target, ast.Name):
+                        other_attrs.add(b.target.id)
+            elif isinstance(x, ast.Call) and ast.unparse(x.func) in (
+                    'setattr', 'getattr', 'hasattr') and len(
+                        x.args) >= 2 and isinstance(x.args[1], ast.Constant):
+                other_attrs.add(x.args[1].value)
+        for st in t.body:
+            if isinstance(st, ast.Assign):
+                for tg in st.targets:
+                    if isinstance(tg, ast.Name):
+                        other_attrs.add(tg.id)
+    # fields of the pinned records
+    other_attrs |= {'exit', 'out', 'err', 'runtime', 'substs', 'fresh_vars',
+                    'id', 'exprs', 'simplifications', 'task_id', 'success',
+                    'reduced', 'tests', 'nodeid', 'name', 'data', 'hash'}
+    count = {}
+    for fs in recs.values():
+        for f_ in fs:
+            count[f_] = count.get(f_, 0) + 1
+    return {n: fs for n, fs in recs.items()
+            if not any(f_ in other_attrs or count[f_] > 1
+                       or f_.startswith('_') for f_ in fs)}
+
+
+def flatten_records(tree, records):
+    """A record type introduced after the pinned tree is written as the
+    plain tuple it replaced: ``T(a, b)`` / ``T(x=a, y=b)`` -> ``(a, b)``,
+    ``v.y`` -> ``v[1]`` (field names are unambiguous, see new_records)."""
+    if not records:
+        return []
+    field_ix = {}
+    for n, fs in records.items():
+        for i, f_ in enumerate(fs):
+            field_ix[f_] = i
+    notes = []
+
+    class R(ast.NodeTransformer):
+
+        def visit_Call(self_, n):
+            n = self_.generic_visit(n)
+            nm = None
+            if isinstance(n.func, ast.Name):
+                nm = n.func.id
+            elif isinstance(n.func, ast.Attribute):
+                nm = n.func.attr
+            if nm in records and not any(
+                    isinstance(a, ast.Starred) for a in n.args) and all(
+                        k.arg for k in n.keywords):
+                fs = records[nm]
+                vals = list(n.args)
+                kw_ = {k.arg: k.value for k in n.keywords}
+                for f_ in fs[len(vals):]:
+                    if f_ not in kw_:
+                        return n
+                    vals.append(kw_[f_])
+                if len(vals) != len(fs):
+                    return n
+                # keyword arguments are evaluated in call order; keep it
+                # only when that is the field order
+                if [k.arg for k in n.keywords] != fs[len(n.args):]:
+                    return n
+                notes.append(f'record {nm}(..) at line {n.lineno} written '
+                             'as a tuple')
+                return ast.copy_location(ast.Tuple(elts=vals,
+                                                   ctx=ast.Load()), n)
+            return n
+
+        def visit_Attribute(self_, n):
+            n = self_.generic_visit(n)
+            if isinstance(n.ctx, ast.Load) and n.attr in field_ix:
+                return ast.copy_location(ast.Subscript(
+                    value=n.value, slice=ast.Constant(value=field_ix[n.attr]),
+                    ctx=ast.Load()), n)
+            return n
+
+    R().visit(tree)
+    ast.fix_missing_locations(tree)
+    return notes
+
+
+def inline_new_helpers(tree, modname, records=None):
     notes0 = []
     try:
         notes0 += lower_modern_syntax(tree)
+    except RecursionError:
+        pass
+    try:
+        notes0 += flatten_records(tree, records or {})
     except RecursionError:
         pass
     try:
